@@ -19,7 +19,8 @@ Contracts:
   (The lexer of the unchanged tree uses none of them; they exist so that an edit that starts using one does
   not make the check inconclusive.)
 * `char::is_ascii_*`, `char::is_ascii`: exact ASCII ranges.
-* `str::contains::<char>` on a concrete haystack: disjunction over the characters of the haystack.
+* `str::contains::<char>`: disjunction over the characters of the haystack (concrete haystack: its characters; ASCII needle:
+  byte-wise, exact for well-formed UTF-8; otherwise the haystack is decoded character by character).
 * `<String|str as Index<RangeFull>>::index`: the whole string as `&str`.
 * `<Vec<T> as DerefMut>::deref_mut`: the mutable slice is the reference to the vector itself.
 * `Vec::last_mut` / `<[T]>::last_mut`: `None` for an empty vector, else a reference to the last slot.
@@ -204,10 +205,23 @@ def m_str_contains_char(it, ctx, callee, args):
     needle = deref(args[1])
     if not (isinstance(needle, Int) and needle.ty == "char"):
         raise Inconclusive("str::contains with a pattern that is not a char: %r" % (needle,))
-    hay = _conc_bytes(args[0], "str::contains (haystack)").decode("utf-8")
-    if not hay:
+    el = elems_of(args[0])
+    if not el:
         return z3.BoolVal(False)
-    return z3.Or(*[needle.t == z3.BitVecVal(ord(h), 32) for h in hay])
+    if all(e.conc() is not None for e in el):
+        hay = bytes(e.conc() for e in el).decode("utf-8")
+        return z3.Or(*[needle.t == z3.BitVecVal(ord(h), 32) for h in hay])
+    nc = needle.conc()
+    if nc is not None and nc < 0x80:
+        # an ASCII byte never occurs inside a multi-byte sequence of well-formed UTF-8
+        return z3.Or(*[e.t == z3.BitVecVal(nc, 8) for e in el])
+    # general case: walk the characters of the haystack (forks on the width classes)
+    alts, p = [], 0
+    while p < len(el):
+        ch, w = MT.decode_at(ctx, el, p)
+        alts.append(ch.t == needle.t)
+        p += w
+    return z3.Or(*alts)
 
 
 # ------------------------------------------------------------------------------------------
